@@ -602,6 +602,17 @@ func derivesFromParam(v ssa.Value, pa *ssa.Parameter, depth int) bool {
 				}
 			}
 		}
+	case *ssa.MakeSlice:
+		// a slice allocated at its final size and filled element by element
+		for _, ref := range refs(x) {
+			if ia, ok := ref.(*ssa.IndexAddr); ok {
+				for _, r2 := range refs(ia) {
+					if st, ok := r2.(*ssa.Store); ok && st.Addr == ssa.Value(ia) && derivesFromParam(st.Val, pa, depth+1) {
+						return true
+					}
+				}
+			}
+		}
 	case *ssa.MakeInterface:
 		return derivesFromParam(x.X, pa, depth+1)
 	case *ssa.ChangeType:
